@@ -40,7 +40,7 @@ typedef struct {
   int64_t vt0, vt1;
 } trec;
 
-#define W_MAXTR 49152
+#define W_MAXTR 196608
 #define W_MAXFAULT 4
 #define W_MAXCHILD 512
 
